@@ -411,7 +411,7 @@ PROPS['C17'] = {
     'verus': ['u_approx'],
     'kani': {'quick': [kset('c17', c17_set(False), timeout=2400, extra=['--solver', 'kissat'])],
              'thorough': [kset('c17', c17_set(True), timeout=6000, extra=['--solver', 'kissat'])]},
-    'probe': False,
+    'probe': True,
     'level': 'other',
     'explanation': 'Twice. (1) Verus, unit u_approx: the real bodies of all 60 approx-trait functions (default_epsilon, abs_diff_eq, default_max_relative, relative_eq of 15 types) are verified, for ALL values, ALL tolerances and generic piece types, against the contract "result == conjunction of the f64-level relation over every corresponding number, and equal lengths for PolyN / Piecewise"; the approx crate\'s own impls for f64, arrays/slices and Vec are trusted contracts read off its source. (2) Kani harnesses through the real approx crate (this also exercises the dependency\'s slice/array impls that (1) trusts): for every type implementing the approx traits (Poly0..Poly8, PolyN, Log<T>, IntOfLog<T>, IntOfLogPoly4, '
                    'Segment<T>, Piecewise<T>) abs_diff_eq and relative_eq equal the conjunction of f64::abs_diff_eq / f64::relative_eq over every corresponding pair of '
